@@ -9,16 +9,20 @@ python3 - <<'PY' > /tmp/regress_list.txt
 import json
 for l in open('/verif/known_findings.jsonl'):
     f = json.loads(l)
-    if f['status'] == 'fixed': print(f['id'], f['property'], f['commit'])
+    if f['status'] == 'fixed': print(f['id'], f.get('check', f['property']), f['commit'])     # ('check': the property whose check exercises the failing call, where that is another one)
 PY
 while read fid pid commit; do
+  if [ -n "$ONLY" ] && ! echo " $ONLY " | grep -q " $fid "; then grep -F "| $fid |" $OUT >> $OUT.tmp; continue; fi
   D=$(mktemp -d /tmp/cello_rev_XXXXXX)
   git -C /repo diff $commit~1 $commit -R > $D/p.diff
   if ! ( cd /repo && patch -p1 --dry-run -s < $D/p.diff > /dev/null 2>&1 ); then
     v="n/a: the reverse patch no longer applies (a later fix: rewrote the same lines)"
   else
-    res=$(MUT_LINES=40 tools/mutant.sh $D/p.diff $pid quick 2>&1 | grep -cE "^VIOLATION property=$pid")
-    if [ "$res" -gt 0 ]; then v="VIOLATION reported"; else v="**not reported**"; fi
+    out=$(MUT_LINES=40 tools/mutant.sh $D/p.diff $pid quick 2>&1)
+    res=$(echo "$out" | grep -cE "^VIOLATION property=$pid")
+    if [ "$res" -gt 0 ]; then v="VIOLATION reported"
+    elif echo "$out" | grep -qE "build failed"; then v="n/a: the tree no longer builds without it (later fixes use what this one introduced)"
+    else v="**not reported**"; fi
   fi
   rm -rf $D
   echo "| $fid | $pid | $commit | $v |" | tee -a $OUT.tmp
